@@ -41,7 +41,7 @@ Options == [timefmt |-> {"unixtime", "date", "datehour"}, leadname |-> {N_leadti
             roworder |-> {"id", "rev", "rot"}, absent |-> {{}, {1}, {2, 7}, {1, 2, 3, 4}, {2, 3, 5, 8}},
             misscells |-> {{}, {<<1, "obs">>}, {<<2, "fcst">>, <<5, "obs">>}, {<<1, "x">>, <<4, "x">>}, {<<3, "lat">>}},
             misstok |-> {"-999", "nan", "abc", "NA", "-999.0", "-1000", "-998.5"}, meta |-> 0..5,
-            hasId |-> BOOLEAN, sites |-> {"far", "close"}]
+            hasId |-> BOOLEAN, sites |-> {"far", "close", "east"}]      \* "east": longitudes in the 0..360 convention (187.5 and 183.5 degrees)
 Fields == DOMAIN Options
 Vary1(b) == UNION {{[b EXCEPT ![f] = v] : v \in Options[f]} : f \in Fields}
 Vary2(b) == UNION {Vary1(x) : x \in Vary1(b)}
@@ -70,7 +70,7 @@ WellFormed(x) == (x.hasObs \/ x.hasFcst \/ x.colset \in {2, 3, 5, 7, 8, 9, 10, 1
                  /\ (x.hasId \/ x.latlon)                                               \* sites need a name or a position
 \* files without a location column, in both layouts of the sites (far apart; a hundred-thousandth of a degree apart), every column set and row order
 NoIdGens == {[b EXCEPT !.hasId = FALSE, !.sites = s, !.colset = k, !.roworder = o] : b \in {Base, Base2}, s \in {"far", "close"}, k \in 1..11, o \in {"id", "rev", "rot"}}
-Gens(u) == {x \in (IF Universe = "quick" THEN Vary1(Base) \cup Vary1(Base2) \cup {[Base2 EXCEPT !.colset = k, !.colorder = o] : k \in 1..11, o \in {"id", "rev", "rot"}} \cup NoIdGens
+Gens(u) == {x \in (IF Universe = "quick" THEN Vary1(Base) \cup Vary1(Base2) \cup {[Base2 EXCEPT !.sites = "east", !.colset = k] : k \in {1, 4, 5}} \cup {[Base2 EXCEPT !.colset = k, !.colorder = o] : k \in 1..11, o \in {"id", "rev", "rot"}} \cup NoIdGens
                    ELSE Vary2(Base) \cup Vary2(Base2) \cup NoIdGens \cup UNION {Vary1(y) : y \in {z \in NoIdGens : z.colset = 5}}) : WellFormed(x)}
 
 \* which abstract column kind a header name is, for the generator's own purposes
@@ -84,9 +84,9 @@ TokenFor(x, nm, n, c) ==       \* n = grid row number, c = <<t, l, id>>
          [] nm = N_hour -> NumTok(R(HourOf(c[1])))
          [] nm \in {N_leadtime, N_offset} -> NumTok(c[2])
          [] nm \in {N_location, N_id} -> NumTok(R(c[3]))
-         [] nm = N_lat -> NumTok(IF x.sites = "far" THEN R(40 + c[3]) ELSE R(40))
-         [] nm = N_lon -> NumTok(IF x.sites = "far" THEN Frac(-2 * c[3] - 1, 2) ELSE Frac(20000 + (c[3] % 5), 100000))         \* 0.20002 and 0.20003: a hundred-thousandth of a degree apart (32-bit arithmetic bounds the digits)
-         [] nm \in {N_elev, N_altitude} -> NumTok(IF x.sites = "far" THEN R(100 * c[3]) ELSE R(100))
+         [] nm = N_lat -> NumTok(IF x.sites # "close" THEN R(40 + c[3]) ELSE R(40))
+         [] nm = N_lon -> NumTok(IF x.sites = "far" THEN Frac(-2 * c[3] - 1, 2) ELSE IF x.sites = "east" THEN Frac(2 * (180 + c[3]) + 1, 2) ELSE Frac(20000 + (c[3] % 5), 100000))         \* 0.20002 and 0.20003: a hundred-thousandth of a degree apart (32-bit arithmetic bounds the digits)
+         [] nm \in {N_elev, N_altitude} -> NumTok(IF x.sites # "close" THEN R(100 * c[3]) ELSE R(100))
          [] nm = N_pit -> NumTok(Frac(Code(c[1], c[2], c[3]) % 8, 8))
          [] OTHER -> NumTok(Add(R(1000 * ColNo(x, nm) + Code(c[1], c[2], c[3])), IF ColNo(x, nm) % 2 = 0 THEN Frac(1, 4) ELSE Zero))
 RowsOf(x) == LET gr == GridRows(x)  h == Header(x)
